@@ -3,7 +3,7 @@ import spec
 from spec import bits_of, hex_of
 
 OBLIGATION_MODULES = ["PyModeS.Properties.C07"]
-TIE_MODULES = ['PyModeS.Tie.Common', 'PyModeS.Tie.Surv', 'PyModeS.Tie.Bds05b', 'PyModeS.Tie.Adsb', 'PyModeS.Tie.C0278Gen']
+TIE_MODULES = ['PyModeS.Tie.Common', 'PyModeS.Tie.Surv', 'PyModeS.Tie.Bds05b', 'PyModeS.Tie.Adsb', 'PyModeS.Tie.C0278Gen', 'PyModeS.Tie.C07Gen']
 MAIN_THEOREM = "PyModeS.C07.altitude13_spec / altcode_frame / adsb_altitude_frame"
 EXHAUSTIVE = True
 RULE = ("all 8192 13-bit codes on common.altitude; every code x DF 0/4/16/20 and every 12-bit field x TC 9-18/20-22 "
